@@ -29,7 +29,7 @@ P = {
    "Trusts go/types, the Strategy interface contract for wrapped strategies, sub-indicator contracts, Γ, Fourier–Motzkin. Alligator and SMMA strategies emit n+1 actions one day late (pinned by their tests): known findings.",
    "§4 C05"),
  "C06": (True,
-   "value-term extraction over the stage graph (snapshot field projections, sub-indicators as uninterpreted operators, stateless closures inlined) + role typing of indicator arguments + anchor alignment of decision operands + semantic comparison of decision closures with a documented-rule table on all strict sign vectors",
+   "value-term extraction over the stage graph (snapshot field projections, sub-indicators as uninterpreted operators, stateless closures inlined) + role typing of indicator arguments + anchor alignment of decision operands + semantic comparison of decision closures with a documented-rule table on all strict sign vectors and, where an indicator value can be undefined (derived from its formula), on the vectors in which every comparison with it is unordered",
    "Static analysis. For each of the 32 base strategies: every argument bound to a role-named parameter of an indicator's Compute is exactly that snapshot field (the role is read from the field the extractor's closure returns); the operands of every decision zip refer to the same snapshot position (two tabled cross-over detectors excepted); the decision closure equals the documented rule as a function of the signs of the compared quantities, evaluated on every strict sign vector — branch order and equivalent rewrites do not matter, a flipped comparison, another threshold field, another indicator output or price field does. Equality positions are exempt as in the property. The numerical correctness of the indicators is C01's concern; TripleRsi's ring-based rule is only role- and alignment-checked.",
    "Trusts go/types, the decision-rule table (from the doc comments; where a comment only says 'crossing' the level test the library uses is the documented reading), the role vocabulary of parameter names, internal/sym. CciStrategy feeds High to all three inputs (pinned by its CSV): known finding.",
    "§4 C06"),
@@ -49,7 +49,7 @@ P = {
    "Trusts go/ssa, the CHA call graph and the freshness model (allocations, constructor results, received channel elements are not shared); aliasing is field-insensitive (over-approximate).",
    "§4 C09"),
  "C10": (True,
-   "typed-AST lints on every asset.Repository implementation: synchronous consumption and error propagation in Append, decision table of the GetSince filter over {<,=,>}, zero-time returns carry an error",
+   "typed-AST lints on every asset.Repository implementation: synchronous consumption and error propagation in Append, decision table of the GetSince filter over {<,=,>}, zero-time returns carry an error, one fresh object per element sent in a loop, Assets() inverts exactly the file-name builder",
    "Static analysis of structural necessary conditions only: every Append consumes its input in the caller's goroutine and returns the error of each write (needed for read-your-writes); the GetSince filter closures keep exactly the orderings {=,>} of (snapshot date, bound), decided on the finite ordering domain and identically in the sibling implementations; LastDate never returns the zero time with a nil error; unknown assets are errors. Equivalence with a map under arbitrary histories (file system, SQL driver, codecs) is not decided.",
    "Trusts go/types and the semantics of time.Time.Equal/After/Before; the SQL dialect text is not analysed. Repaired: SQLRepository.Append was asynchronous (dd89e0d).",
    "§4 C10"),
@@ -79,7 +79,7 @@ P = {
    "Trusts go/types, the admissibility table Γ, the helper.Ring fullness model and the in-house Fourier–Motzkin procedure; helper stages are re-summarised from helper/ on every run (C16 checks those summaries against the slice models). Sub-indicators are used through their declared IdlePeriod contract in the quick tier; the thorough tier re-derives everything contract-free.",
    "§4 C02"),
  "C17": (True,
-   "typed-AST lints with finite decision tables: no ordering by the sign of a difference in generic numeric code; Insert/search routing agreement over {<,=,>}; Ring index discipline and state invariant; link-write discipline of the tree (attach / splice / replace, each store justified on every truth assignment of the pointer comparisons on its path)",
+   "typed-AST lints with finite decision tables: no ordering by the sign of a difference in generic numeric code; Insert/search routing agreement over {<,=,>}; Ring index discipline and state invariant; link-write discipline of the tree by path interpretation over symbolic access paths (attach / splice / replace, each store justified on every truth assignment the facts of its path allow; helpers inlined, search loops verified and summarised)",
    "Static analysis of five structural necessary conditions, not of model conformance (the fifth: every store into a child link, the root or a node value in package helper is an attach into a nil link, a splice of a node whose other child is nil out of the link that pointed at it, or the value of the in-order neighbour which is itself spliced out with the parent its verified search loop returned - so Remove loses no node but the one removed): ordering decisions on generic numeric values use comparison operators (a difference overflows for integer element types); evaluated on the three orderings, Insert and searchNode route smaller and larger keys to the same side and search stops on equality; every Ring buffer index is begin/end or reduced modulo len(buffer) and begin/end advance only through nextIndex = (i+1) % len(buffer); the ring's state invariant `empty => begin == end` is established by NewRing and preserved on every path of every method (guarded commands of the methods, receiver fields as state). Conformance to the FIFO/multiset models under arbitrary operation histories is not decided.",
    "Trusts go/types; values are only compared, so three orderings are exhaustive for the routing rule. Repaired: searchNode ordered by subtraction (930a477).",
    "§4 C17"),
